@@ -10,7 +10,7 @@
 EXTENDS TraceBase, MsgTypes
 
 ASSUME TableConsistent
-ASSUME Len(Trace) = 4098 + 48 + 4096
+ASSUME Len(Trace) = 4098 + 48 + 8 + 4096
 
 VARIABLES l, bad
 
@@ -43,13 +43,18 @@ OkDispatch(e) ==
     /\ ConstellationOf(e.t) # ConstellationOf(e.t2)
     /\ e.err = "" /\ e.delta_ms = 1000 /\ e.sow_same
 
-\* Events 4147..8242: one per type 0..4095 from a fresh process whose first use of the library was eight goroutines
+\* Events 4147..4154: each of the eight timed MSM types alone across its own week roll-over (a message one second before the
+\* end of its week, the next 2 s later): [t, roll, delta_ms, sow_delta_ms, err] - the time advances by 2 s, the start of week
+\* by exactly one week
+OkRoll(e) == e.roll /\ ConstellationOf(e.t) \in TimedConstellations /\ e.err = "" /\ e.delta_ms = 2000 /\ e.sow_delta_ms = 604800000
+
+\* Events 4155..8250: one per type 0..4095 from a fresh process whose first use of the library was eight goroutines
 \* displaying a frame of every type at the same time: [t, conc, ok] - every one of them got a title and a display
-OkConc(e, i) == e.t = i - 4147 /\ e.conc /\ e.ok
+OkConc(e, i) == e.t = i - 4155 /\ e.conc /\ e.ok
 
 Init == l = 1 /\ bad = <<>>
 Next == /\ l <= Len(Trace)
         /\ l' = l + 1
-        /\ bad' = IF (IF l <= 4098 THEN Ok(Trace[l], l) ELSE IF l <= 4146 THEN OkDispatch(Trace[l]) ELSE OkConc(Trace[l], l)) \/ Len(bad) >= MaxBad THEN bad ELSE Append(bad, l)
+        /\ bad' = IF (IF l <= 4098 THEN Ok(Trace[l], l) ELSE IF l <= 4146 THEN OkDispatch(Trace[l]) ELSE IF l <= 4154 THEN OkRoll(Trace[l]) ELSE OkConc(Trace[l], l)) \/ Len(bad) >= MaxBad THEN bad ELSE Append(bad, l)
 Rec == Note(l, bad)
 =============================================================================
